@@ -797,7 +797,7 @@ func RunC02(e *Env) (int, error) {
 
 	t0 := time.Now()
 	viol, err := e.Drive(n, fn, finish)
-	ev.Coverage["rule"] = fmt.Sprintf("base streams of 1-4 documents (+ optionally an unrelated second chain), then 1-%d further layers of 1-3 documents, with document-level $match (one / several / none / only non-lineage / $invert / null), biased to a fan-out layer (container introduced or replaced in several targets) followed by a layer editing that container; applied by successive MergeDocument calls or as layer files through MergeFileLayers; oracle = reference targeting model + isolated replay of every state document alone in a fresh parser, compared after every call and at OutputDocuments; non-trivial = a child was applied to >= 2 documents and a later layer touched a key it wrote; distinct = canonical op list", maxLayers)
+	ev.Coverage["rule"] = fmt.Sprintf("base streams of 1-4 documents (+ optionally an unrelated second chain), then 1-%d further layers of 1-3 documents, with document-level $match (one / several / none / only non-lineage / $invert / null), biased to a fan-out layer (container introduced or replaced in several targets) followed by a layer editing that container; reserved attributes for patterns incl. 64-bit integers, lists and typed TOML date/time scalars; applied by successive MergeDocument calls or as layer files through MergeFileLayers; the parser under test logs (SetDebug / BKL_DEBUG) in 12% of the runs; oracle = reference targeting model + isolated replay of every state document alone in a fresh parser, compared after every call and at OutputDocuments; non-trivial = a child was applied to >= 2 documents and a later layer touched a key it wrote; distinct = canonical op list", maxLayers)
 	ev.Coverage["loop_seconds"] = time.Since(t0).Seconds()
 	ev.Assumptions = []string{
 		"$match patterns of the workload look only at the reserved keys name/kind, which layers never edit (except a root-level $replace: true, which the model follows); this is what lets the targeting model be independent of merge results",
